@@ -359,6 +359,7 @@ func runC01(c *kit.Ctx) {
 	establisherHandoff(c)
 	failedAttemptRelooksUp(c)
 	regionAttributesAreImmutable(c)
+	everyFailedResultReachesTheReaction(c)
 
 	// ---- R3 ---------------------------------------------------------------
 	c.StartRule("R3", "both lookup validators check table and key < stop", 6)
